@@ -265,13 +265,14 @@ LoadLeaf(v, T, pol) ==
 -----------------------------------------------------------------------------
 (* Key lookup: keys of a scenario are <<"ks", bytes>>, <<"ki", n>> or <<"ku", n>> *)
 KeyMatches(docKey, key) ==
-  IF key[1] = "ks" THEN docKey[1] = "str" /\ docKey[2] = key[2]
+  IF key[1] = "attr" THEN docKey = key
+  ELSE IF key[1] = "ks" THEN docKey[1] = "str" /\ docKey[2] = key[2]
   ELSE docKey[1] = "int" /\ docKey = IntSmall(key[2])
 
 RECURSIVE FindKey(_, _, _)
 FindKey(pairs, key, i) == IF i > Len(pairs) THEN 0 ELSE IF KeyMatches(pairs[i][1], key) THEN i ELSE FindKey(pairs, key, i + 1)
 
-OpKey(op) == IF "ks" \in DOMAIN op THEN <<"ks", op.ks>> ELSE IF "ki" \in DOMAIN op THEN <<"ki", op.ki>> ELSE <<"ku", op.ku>>
+OpKey(op) == IF op.op = "attr" THEN <<"attr", op.ks>> ELSE IF "ks" \in DOMAIN op THEN <<"ks", op.ks>> ELSE IF "ki" \in DOMAIN op THEN <<"ki", op.ki>> ELSE <<"ku", op.ku>>
 
 -----------------------------------------------------------------------------
 (* Script execution.  State threaded through: [ev, exc]  (exc = <<"none">> while running) *)
@@ -302,12 +303,20 @@ ExecObjOps(pairs, ops, i, pol, st) ==
   IF i > Len(ops) \/ ~Running(st) THEN st
   ELSE LET op == ops[i] IN
     IF op.op = "visit" THEN
-         ExecObjOps(pairs, ops, i + 1, pol, Emit(st, <<"visit", [j \in 1..Len(pairs) |-> pairs[j][1]]>>))
+         LET ks == SelectSeq([j \in 1..Len(pairs) |-> pairs[j][1]], LAMBDA k : k[1] # "attr") IN      \* attributes are not enumerated
+         ExecObjOps(pairs, ops, i + 1, pol, Emit(st, <<"visit", ks>>))
     ELSE IF op.op = "base" THEN          \* members of a base class are requested from the same object
          ExecObjOps(pairs, ops, i + 1, pol, ExecObjOps(pairs, op.ops, 1, pol, st))
     ELSE LET idx == FindKey(pairs, OpKey(op), 1)
              v == IF idx = 0 THEN <<"absent">> ELSE pairs[idx][2] IN
-      IF op.op = "req" THEN
+      IF op.op = "attr" THEN        \* XML attribute: text, always present or absent (no null), bool via the parser's own truth test
+           IF idx = 0 THEN ExecObjOps(pairs, ops, i + 1, pol, Emit(st, <<"attr", FALSE, Prior(op.t)>>))
+           ELSE LET r == IF op.t = "bool" /\ v[1] # "bool" THEN <<"any">> ELSE IF v[1] = "str" /\ v[2] = <<>> /\ op.t # "str" THEN <<"any">>
+                         ELSE IF v[1] = "str" /\ v[2] = <<>> THEN <<"val", v>> ELSE LoadLeaf(v, op.t, pol) IN
+                IF r[1] = "err" THEN Throw(st, r[2])
+                ELSE IF r[1] \in {"any", "nonfinite"} THEN LeafAny(st)
+                ELSE ExecObjOps(pairs, ops, i + 1, pol, Emit(st, LeafEvent("attr", r, op.t)))
+      ELSE IF op.op = "req" THEN
            IF idx = 0 THEN ExecObjOps(pairs, ops, i + 1, pol, Emit(st, <<"req", FALSE, Prior(op.t)>>))
            ELSE LET r == LoadLeaf(v, op.t, pol) IN
                 IF r[1] = "err" THEN Throw(st, r[2])
